@@ -2,7 +2,8 @@ CONSTANTS NP = 0
  NT = 0
  NF = 2
  NA = 0
- NC = 0
+ NC = 3
+ NS = 0
  Light = TRUE
 INIT InitGen
 NEXT EvalGen
